@@ -30,7 +30,9 @@ type loopScenario struct {
 }
 
 type scriptAccepter struct {
-	ch chan acceptResult
+	ch    chan acceptResult
+	mu    sync.Mutex
+	queue []acceptResult // results handed out back to back, without blocking in between
 }
 type acceptResult struct {
 	c   channel.Channel
@@ -38,6 +40,14 @@ type acceptResult struct {
 }
 
 func (a *scriptAccepter) Accept(ctx context.Context) (channel.Channel, error) {
+	a.mu.Lock()
+	if len(a.queue) > 0 {
+		r := a.queue[0]
+		a.queue = a.queue[1:]
+		a.mu.Unlock()
+		return r.c, r.err
+	}
+	a.mu.Unlock()
 	r := <-a.ch
 	return r.c, r.err
 }
@@ -121,6 +131,18 @@ func runLoopScenario(t *testing.T, sc *loopScenario) *loopRun {
 				r.logf("accept %d", accepted)
 				accepted++
 				offer(acceptResult{c: srv})
+			case "connect+closing":
+				// a connection immediately followed by the listener closing: Accept returns both back to back
+				cli, srv := newVPair()
+				peers = append(peers, cli)
+				r.logf("accept %d", accepted)
+				accepted++
+				r.logf("acceptfail closing")
+				acc.mu.Lock()
+				acc.queue = append(acc.queue, acceptResult{err: net.ErrClosed})
+				acc.mu.Unlock()
+				offer(acceptResult{c: srv})
+				ended = true
 			case "clientclose":
 				if op.Arg < len(peers) {
 					r.logf("clientclose %d", op.Arg)
@@ -167,6 +189,15 @@ func runLoopScenario(t *testing.T, sc *loopScenario) *loopRun {
 			done <- err
 		default:
 		}
+		// connections of failed services must have been closed by Loop
+		for i, p := range peers {
+			if failNext[i] {
+				p.in.mu.Lock()
+				closed := p.in.closed
+				p.in.mu.Unlock()
+				r.logf("failedconn %d closedByLoop=%v", i, closed)
+			}
+		}
 		// let the remaining servers end: peers hang up
 		for i, p := range peers {
 			r.logf("clientclose %d", i)
@@ -178,15 +209,6 @@ func runLoopScenario(t *testing.T, sc *loopScenario) *loopRun {
 			r.logf("loopreturn %v", err)
 		}
 		synctest.Wait()
-		// connections of failed services must have been closed by Loop
-		for i, p := range peers {
-			if failNext[i] {
-				p.in.mu.Lock()
-				closed := p.in.closed
-				p.in.mu.Unlock()
-				r.logf("failedconn %d closedByLoop=%v", i, closed)
-			}
-		}
 	})
 	return r
 }
@@ -227,6 +249,9 @@ func TestC20(t *testing.T) {
 				trace = append(trace, "a")
 				nconn++
 			case "newservice":
+				if retAt >= 0 {
+					res.Violatef("Loop returned before a connection it had accepted was served and finished", in, "log: %s", shortLog(r.Log))
+				}
 				newsvc[k]++
 				trace = append(trace, fmt.Sprintf("n:%d", k))
 			case "assigner":
@@ -290,7 +315,7 @@ func TestC20(t *testing.T) {
 		logs = append(logs, r.Log)
 		ins = append(ins, in)
 	}
-	kinds := []string{"connect", "connect", "connectfail", "clientclose", "cancel", "call", "acceptfail", "acceptclosing"}
+	kinds := []string{"connect", "connect", "connectfail", "clientclose", "cancel", "call", "acceptfail", "acceptclosing", "connect+closing"}
 	for i := 0; i < pick(400, 4000); i++ {
 		sc := &loopScenario{}
 		n := 1 + rng.Intn(7)
@@ -311,7 +336,7 @@ func TestC20(t *testing.T) {
 				conns++
 			}
 			sc.Ops = append(sc.Ops, op)
-			if strings.HasPrefix(k, "acceptfail") || k == "acceptclosing" {
+			if strings.HasPrefix(k, "acceptfail") || k == "acceptclosing" || k == "connect+closing" {
 				break
 			}
 		}
